@@ -111,7 +111,7 @@ CFG = {
         "the REST port is parsed by net/http + gin (Recovery installed); no repo code below the handlers to model - see C17",
     ],
     "trusted_base": COMMON_TRUSTED + [
-        "driver-implemented oracle semantics in lean/Swat4/Drv/C06.lean (not Model/ or Spec/ definitions): `reaches` (copy of C06.reachesUseCase), "
+        "driver-implemented oracle semantics in lean/Swat4/Drv/C06.lean (not Model/ or Spec/ definitions; `reaches` is no longer one of them: it and C06.reachesUseCase are both names of Heartbeat.reachesUseCase in Model/ReporterReach.lean): "
         "`oracleStep` / `oracle` (hist: no panic, state unchanged unless the datagram reaches a use case and is not answered err), `handleTcp` (no panic, "
         "connection closed, store unchanged), `handleStall`, and `handleUdpSrv` with `udpBufferSize` = 2048 (the per-datagram matching of received replies "
         "against Model Heartbeat.dispatch run from 127.0.0.1:<client port> over the datagrams cut at the read buffer; attribution of a reply to a datagram "
